@@ -1209,6 +1209,7 @@ func runC12(cx *CheckCtx) {
 					}
 					cx.decide(okDist, "record-add", "nns.AddRecord/distinct", "the record is stored only after its data was compared with every existing record of the type and found different", "a value that is already recorded for the name and type can be added again (the duplicate test is missing, inverted or does not cover every record)", where)
 				}
+				cx.decide(executedAtEveryExit(a, put), "record-add", "nns.AddRecord/always", "every normal return has stored the record", "addRecord can return normally without storing the submitted record", put.Where(w))
 				cx.decide(okId && findSite(a, pre) != nil, "record-add", "nns.AddRecord/id", "id = number of records found by the scan of the same (token, name, type)", "the id of a new record is not the count of existing records of that (token, name, type): records overwrite each other or leave gaps", put.Where(w))
 				v := unserialize(put.Args[2])
 				cx.decide(tb.field(v, "Name") == paramTerm(tb, m, "name") && tb.field(v, "Type") == typ && tb.field(v, "Data") == paramTerm(tb, m, "data") && tb.field(v, "ID") == id, "record-add", "nns.AddRecord/value", "stores {name, type, data, id}", "the stored record is "+v.pretty(), put.Where(w))
@@ -1250,6 +1251,8 @@ func runC12(cx *CheckCtx) {
 				}
 			}
 			cx.decide(okP, "record-set", "nns.SetRecord/replace-only", "the record with that id was read as present", "setRecord can create a record at an arbitrary id instead of replacing an existing one", put.Where(w))
+			// presence: a successful setRecord has replaced the record (no "same value, nothing to do" return)
+			cx.decide(executedAtEveryExit(a, put), "record-set", "nns.SetRecord/always", "every normal return has stored the record", "setRecord can return normally without storing the submitted record", put.Where(w))
 			okS := true
 			for _, ex := range a.Exits() {
 				if !a.holdsAt(ex.State, a.eLit(soa)) {
